@@ -23,8 +23,9 @@ LEVEL = "proof"
 CLAIM = dict(
     category="proof",
     text="Theorems in DarsiaProps.C19 about the executable model DarsiaModel.Patches (arrays as grids of base-image indices, numpy "
-    "slicing as drop/take), for EVERY extent N, patch count n >= 1, overlap ov <= pv: pv_eq_ceil (the metric patch-size formula is "
-    "ceil(N/n) in exact arithmetic; n*pv >= N), ov_le_pv, rel_roi_is_interior, interiors_partition (interiors concatenate to 0..N-1 for "
+    "slicing as drop/take), for EVERY extent N, patch count n >= 1, overlap ov <= pv: pv_eq_ceil (the integer patch size the code computes is ceil(N/n) = the exact value of the "
+    "former metric formula; n*pv >= N), assemble_patches_id (end to end: cs.ok, n > 0, 0 <= rel <= 1 imply assemble() of the axes the code derives is the identity), "
+    "corners_delimit_interior, centre_outside_patch_witness (negative; known finding), ov_le_pv, rel_roi_is_interior, interiors_partition (interiors concatenate to 0..N-1 for "
     "every pv with n*pv >= N), assemble_id (assemble() is the identity grid), patch_is_subimage, centres_voxel_physical_agree (the "
     "hard-coded centre layout is the base coordinate system; voxel centre = floor), corners_centres_agree_of_dvd, and the negative "
     "witness corners_voxel_physical_disagree_witness (n does not divide N; known finding). Round 2: patch_metadata (patch (i,j) as an IMAGE = the C02 sub-image theorem at rois[i][j]: "
@@ -39,6 +40,7 @@ CLAIM = dict(
 )
 EPS = Fraction(1, 2**52)
 KNOWN_CORNERS = "C19:global_corners_voxels!=global_corners_cartesian:patch-count-not-dividing-extent"
+KNOWN_CENTRES = "C19:global_centers_voxels-outside-own-patch:patch-count-not-dividing-extent"
 
 
 def make_cfg(rng, N, n, rel, regime, colour):
@@ -154,6 +156,11 @@ def evaluate(d, cfg, want_tables=False):
                 fails.append(("C19:interior!=block-at-global_corners_voxels", f"patch ({i},{j}): interior is not base[{r0}:{r1}, {c0}:{c1}]",
                               {"patch": [i, j], "corners": gc.tolist(), "observed": grid_str(piece)[:200], "required": grid_str(block)[:200]}))
             whole = decode(cfg, P.img)
+            wr0, wr1 = max(i * pv[0] - ov[0], 0), min((i + 1) * pv[0] + ov[0], N0)
+            wc0, wc1 = max(j * pv[1] - ov[1], 0), min((j + 1) * pv[1] + ov[1], N1)
+            wblock = decode(cfg, img.img[wr0:max(wr0, wr1), wc0:max(wc0, wc1)])
+            if whole.size != wblock.size or (wblock.size and not np.array_equal(whole, wblock)):
+                fails.append(("C19:patch!=block-at-corners-plus-overlap", f"patch ({i},{j}) with overlap {ov}: data are not base[{wr0}:{wr1}, {wc0}:{wc1}] (advertised corner ({i * pv[0]},{j * pv[1]}) widened by the overlap and clipped)", {"patch": [i, j]}))
             if ov[0] == 0 and ov[1] == 0 and (whole.size != block.size or (block.size and not np.array_equal(whole, block))):
                 fails.append(("C19:patch!=block-at-global_corners_voxels", f"patch ({i},{j}) (no overlap) is not base[{r0}:{r1}, {c0}:{c1}]", {"patch": [i, j]}))
             # local corners = global corners relative to the top-left one
@@ -205,8 +212,18 @@ def evaluate(d, cfg, want_tables=False):
             if abs(frac(float(gcc[i, j][0])) - wx) > tolx or abs(frac(float(gcc[i, j][1])) - wy) > toly:
                 fails.append(("C19:global_centers_cartesian!=centre-of-physical-patch", f"patch ({i},{j}): {gcc[i, j].tolist()} vs {[float(wx), float(wy)]}", {"patch": [i, j]}))
             for a, (idx, cnt, NN) in enumerate(((i, n0, N0), (j, n1, N1))):
-                if NN % cnt == 0 and not (idx * pv[a] <= gcv[i, j][a] < (idx + 1) * pv[a]):
-                    fails.append(("C19:centre-voxel-outside-its-patch:dividing", f"patch ({i},{j}) axis {a}: centre voxel {int(gcv[i, j][a])} not in [{idx * pv[a]}, {(idx + 1) * pv[a]})", {"patch": [i, j]}))
+                # (1) independent of the implementation: the voxel centre is floor((idx + 1/2) * N / n), exactly; when that quotient is
+                #     integral the physical centre lies exactly on a voxel face and floats decide: compared on the dyadic stream only
+                q = Fraction(2 * idx + 1, 2) * NN / cnt
+                if (dyadic or q.denominator != 1) and int(gcv[i, j][a]) != q.numerator // q.denominator:
+                    fails.append(("C19:global_centers_voxels!=floor((i+1/2)N/n)", f"patch ({i},{j}) axis {a}: advertised centre voxel {int(gcv[i, j][a])}, floor(({idx}+1/2)*{NN}/{cnt}) = {q.numerator // q.denominator}", {"patch": [i, j]}))
+                # (2) the advertised centre of a patch lies in that patch (its interior [idx*pv, min((idx+1)*pv, N)))
+                lo_, hi_ = idx * pv[a], min((idx + 1) * pv[a], NN)
+                if not (lo_ <= gcv[i, j][a] < hi_):
+                    if NN % cnt == 0:
+                        fails.append(("C19:centre-voxel-outside-its-patch:dividing", f"patch ({i},{j}) axis {a}: centre voxel {int(gcv[i, j][a])} not in [{lo_}, {hi_})", {"patch": [i, j]}))
+                    else:
+                        fails.append((KNOWN_CENTRES, f"{NN} voxels in {cnt} patches, patch {idx}: advertised centre voxel {int(gcv[i, j][a])} lies outside the patch's interior [{lo_}, {hi_})", {"patch": [i, j], "axis": a}))
             for k in range(4):
                 c = call(cs.coordinate, [int(x) for x in kv[i, j][k]])
                 if isinstance(c, Raised):
@@ -272,14 +289,15 @@ def correspondence_lines(ctx, d, cfg, tables, info, lines, impl):
     impl.append(repr(a) if isinstance(a, Raised) else grid_str(decode(cfg, a.img)))
 
 
-KNOWN_BLEND = "C19:blend_and_assemble:raises:!Other"
+KNOWN_BLEND = "C19:blend_and_assemble:raises:AttributeError:pw"
 
 
 def blend_check(d, cfg, img, p):
     """blend_and_assemble: with zero overlap it equals assemble(); blending the unmodified patches reproduces the image."""
     b = call(p.blend_and_assemble)
     if isinstance(b, Raised):
-        return [(f"C19:blend_and_assemble:raises:{b!r}", f"Patches({cfg['N']}, {cfg['n']}, rel_overlap={cfg['rel']}).blend_and_assemble() raises {b.exc!r}", {})]
+        detail = type(b.exc).__name__ + (":" + str(getattr(b.exc, "name", "")) if isinstance(b.exc, AttributeError) else "")
+        return [(f"C19:blend_and_assemble:raises:{detail}", f"Patches({cfg['N']}, {cfg['n']}, rel_overlap={cfg['rel']}).blend_and_assemble() raises {b.exc!r}", {})]
     ref = np.asarray(img.img, dtype=float)
     got = np.asarray(b.img, dtype=float)
     if got.shape != ref.shape or not np.allclose(got, ref, rtol=1e-12, atol=1e-9 * max(1.0, float(np.abs(ref).max()))):
